@@ -328,7 +328,7 @@ def run_gfortran(src, driver, workdir, flags=(), timeout=60, env=None):
         fh.write(src)
     with open(os.path.join(workdir, "drv.f90"), "w", encoding="utf-8") as fh:
         fh.write(driver)
-    cmd = ["gfortran", "-O0", "-ffree-line-length-none", "-fno-range-check", *flags,
+    cmd = ["gfortran", "-O0", "-ffree-line-length-none", "-fno-range-check", "-fcheck=bounds", *flags,
            "unit.f90", "drv.f90", "-o", "a.out"]
     p = subprocess.run(cmd, cwd=workdir, capture_output=True, text=True, timeout=timeout)
     if p.returncode != 0:
@@ -341,6 +341,8 @@ def run_gfortran(src, driver, workdir, flags=(), timeout=60, env=None):
                            timeout=timeout, env=e)
     except subprocess.TimeoutExpired:
         return None, "RUN-TIMEOUT"
+    if q.returncode != 0:
+        return None, f"RUNTIME-ERROR rc={q.returncode}\n" + q.stdout[-1500:] + q.stderr[-1500:]
     return q.stdout, q.stderr
 
 
